@@ -85,7 +85,7 @@ def specs_for(prop, cnt, prog, rng, max_points, batch_subsets):
     return specs
 
 def run_family(prop, tier, seed, budget, profile, n_workloads, max_points, batch_subsets, rule, required, param_spec=None,
-               assumptions=None, triggers_of=None, profiles=('debug',)):
+               assumptions=None, triggers_of=None, profiles=('debug',), fixed=None):
     rep = Report(prop, tier, seed, 'fault_enumeration')
     rep.rule = rule
     rep.required = required
@@ -96,6 +96,10 @@ def run_family(prop, tier, seed, budget, profile, n_workloads, max_points, batch
         for i in range(n_workloads):
             prog, params = make_prog(seed, prop + ':' + prof, i, profile, param_spec)
             progs.append((i, prog, params))
+        # hand-written workloads aimed at layouts the generator reaches rarely: every one of their crash points is used
+        for j, (fprog, fparams) in enumerate(fixed or []):
+            import copy
+            progs.append((10_000 + j, copy.deepcopy(fprog), dict(fparams)))
         counts = {}
         for t, res in pmap(count_task, [{'binary': binary, 'prog': p, 'i': i} for i, p, _ in progs]):
             if isinstance(res, Exception):
@@ -114,7 +118,9 @@ def run_family(prop, tier, seed, budget, profile, n_workloads, max_points, batch
                     rep.count('other_kind_observations:' + f['kind'] + ':' + f['cls'])
                 continue
             rng = rng_for(seed, prop, 'specs', i)
-            specs = specs_for(prop, cnt, prog, rng, max_points, batch_subsets if params['backend'] == 'fd' else 0)
+            specs = specs_for(prop, cnt, prog, rng, max_points if i < 10_000 else 10 ** 9, batch_subsets if params['backend'] == 'fd' else 0)
+            if i >= 10_000:
+                rep.count('fixed_workloads')
             rep.count('workloads')
             rep.count('io_events_numbered', sum(p['main'] + p['clean'] + p['bg'] for p in cnt['procs']))
             for s in specs:
